@@ -269,8 +269,10 @@ func (pipeline *Pipeline) compile(global *Ast) error {
 	// Check call bindings after all calls are checked, so that the Callables
 	// table is fully populated.
 	for _, call := range pipeline.Calls {
+		valid := true
 		if err := call.Modifiers.compile(global, pipeline, call); err != nil {
 			errs = append(errs, err)
+			valid = false
 		}
 
 		// Check the bindings
@@ -278,6 +280,12 @@ func (pipeline *Pipeline) compile(global *Ast) error {
 		if err := call.Bindings.compile(
 			global, pipeline, callable.GetInParams()); err != nil {
 			errs = append(errs, err)
+			valid = false
+		}
+		if !valid {
+			// What the call is mapped over cannot be worked out from
+			// bindings which are not valid.
+			continue
 		}
 		if err := call.checkMappings(global, pipeline); err != nil {
 			errs = append(errs, err)
